@@ -171,13 +171,16 @@ def check_sweep(case):
             first_sig = w // 2      # (no signing observer at opcode granularity: roughly the second half of the run)
         # ---- one run per line event ------------------------------------------------------------------------------------
         N = ref.events
+        # the class of the injected exception rotates (plain Exception, KeyError, OSError, KeyboardInterrupt, MemoryError ...):
+        # a handler that is too broad or sits around too much code swallows some of them
+        rot = faults.rotating(case.get("class_offset", 0))
         for k in range(1, N + 1):
             if gran == "opcode":
                 gc.collect()
             with open(fn, "wb") as f:
                 f.write(original)
             stub.calls.clear()
-            tr = faults.run(call, PKG, fn, fault_at=k, granularity=gran)
+            tr = faults.run(call, PKG, fn, fault_at=k, granularity=gran, fault_base=rot(k))
             sweeps += 1
             data = open(fn, "rb").read()
             cls = _classify(data, original, expected, case)
@@ -221,10 +224,10 @@ def _sweep_cases(draw):
     seed = draw(keys.seeds).hex()
     if proc in ("repodata", "cli-sign-artifacts"):
         return {"proc": proc, "seed": seed, "doc": draw(GR.repodata(min_artifacts=1, max_artifacts=6)),
-                "style": draw(st.sampled_from(GR.STYLES))}
+                "style": draw(st.sampled_from(GR.STYLES)), "class_offset": draw(st.integers(0, 8))}
     doc = draw(st.one_of(GM.signed_parts([keys.pub_hex(keys.POOL[0])]), G.package_record, G.payloads))
     pre = draw(st.lists(st.tuples(st.one_of(G.strings, keys.ghost_keys), st.sampled_from([{"signature": "ab" * 64}, 5, "x"])), max_size=2))
-    return {"proc": proc, "seed": seed, "doc": doc, "pre": [list(p) for p in pre]}
+    return {"proc": proc, "seed": seed, "doc": doc, "pre": [list(p) for p in pre], "class_offset": draw(st.integers(0, 8))}
 
 
 @st.composite
